@@ -93,6 +93,19 @@ class Context:
         except AnalysisError as exc:
             self.undecided.append(f"{self.prop}/{getattr(fn, '__name__', 'rule')}: {exc}")
 
+    def rule_any(self, *fns) -> None:
+        """Alternative deciders of the same clause: undecided only if every one of them is."""
+        errs = []
+        for fn in fns:
+            try:
+                fn(self)
+            except AnalysisError as exc:
+                errs.append(f"{self.prop}/{getattr(fn, '__name__', 'rule')}: {exc}")
+        if len(errs) == len(fns):
+            self.undecided.extend(errs)
+        elif errs:
+            self.notes.setdefault("alternative_rule_undecided", []).extend(errs)
+
     def floor(self, rule: str, what: str, count: int, minimum: int) -> None:
         """Vacuity guard: the instance count confirmed by reading must still be found."""
         if count < minimum:
